@@ -401,7 +401,12 @@ pub fn render(i: &GIface, l: &mut Layout) -> String {
     l.mws(&mut out);
     out.push_str(&i.name);
     for m in &i.members {
-        out.push('\n');
+        // the line of the interface name / of the previous member ends: LF, CR LF or a lone CR, after blanks or not
+        if l.wild {
+            out.push_str(*l.rng.pick(&["\n", "\n", "\r\n", " \n", "\t \r\n", "\r"]));
+        } else {
+            out.push('\n');
+        }
         if l.wild {
             for _ in 0..l.rng.below(3) {
                 out.push_str(*l.rng.pick(&["\n", " \n", "\t\n", "\r\n", "\r\n", "\r"]));
